@@ -130,6 +130,44 @@ def main():
             cells.append((crate, sorted(c)))
         classes[crate] = len(chosen)
 
+    # cross-crate cells: a consumer may enable features of a dependency crate next to a dependent crate (cargo unifies
+    # them), e.g. nexrad-model/chrono together with nexrad-decode's nexrad-model feature.  A cell's feature list may
+    # therefore contain dep/feature entries.
+    def subsets(items):
+        return [[items[i] for i in range(len(items)) if m >> i & 1] for m in range(1 << len(items))]
+    model_feats = crate_features("nexrad-model")[0]
+    decode_feats = crate_features("nexrad-decode")[0]
+    model_subsets = [x for x in subsets(model_feats) if x]
+    cross = []
+    decode_own = [f for f in subsets(decode_feats) if "nexrad-model" in f]
+    for own in decode_own:
+        for ms in model_subsets:
+            cross.append(("nexrad-decode", sorted(own + ["nexrad-model/" + f for f in ms])))
+    data_feats, data_default = crate_features("nexrad-data")
+    data_own = [sorted(f for f in data_default if f in data_feats), sorted(data_feats)]
+    if tier == "thorough":
+        pool = [x for x in powerset(data_feats) if "nexrad-model" in x or "nexrad-decode" in x or "decode" in x]
+        data_own += [sorted(x) for x in rng.sample(pool, min(24, len(pool)))]
+    for own in data_own:
+        picks = model_subsets if tier == "thorough" else [[f] for f in model_feats] + [list(model_feats)]
+        for ms in picks:
+            cross.append(("nexrad-data", sorted(own + ["nexrad-model/" + f for f in ms])))
+        if "nexrad-decode" in own or "decode" in own:
+            for ds in [x for x in subsets(decode_feats) if x]:
+                cross.append(("nexrad-data", sorted(own + ["nexrad-decode/" + f for f in ds])))
+    facade_feats = crate_features("nexrad")[0]
+    for own in ([sorted(facade_feats)] if tier != "thorough" else [x for x in subsets(facade_feats) if "nexrad-model" in x]):
+        for ms in ([[f] for f in model_feats] + [list(model_feats)] if tier != "thorough" else model_subsets):
+            cross.append(("nexrad", sorted(own + ["nexrad-model/" + f for f in ms])))
+    seen_cells = {(c, tuple(f)) for c, f in cells}
+    n_cross = 0
+    for c, f in cross:
+        if (c, tuple(f)) not in seen_cells:
+            seen_cells.add((c, tuple(f)))
+            cells.append((c, f))
+            n_cross += 1
+    classes["cross-crate (dep/feature) cells"] = n_cross
+
     # distribute: each worker owns a target dir; cells of one crate stay together to share dependency builds
     buckets = [[] for _ in range(WORKERS)]
     for i, cell in enumerate(sorted(cells, key=lambda c: (c[0], len(c[1])))):
@@ -180,7 +218,7 @@ def main():
         "coverage": {
             "evaluations": len(results),
             "distinct_nontrivial": distinct_nontrivial,
-            "rule": "cells of the feature power-set (named features + optional dependencies read from each crate's Cargo.toml, verif-hooks excluded); thorough = every cell of every crate, quick = every cell of crates with <= 4 features and, for nexrad-data, {none, all, default, each single, each all-but-one} plus 40 seeded random cells; each cell = cargo check --offline -p <crate> --no-default-features --features <set>, once for the library alone and once with --all-targets; non-trivial = a cell that differs from both the empty and the default set",
+            "rule": "cells of the feature power-set (named features + optional dependencies read from each crate's Cargo.toml, verif-hooks excluded), plus cross-crate cells in which features of a dependency crate are enabled next to the dependent crate's own (nexrad-decode with nexrad-model x every non-empty nexrad-model feature set; nexrad-data default/all - thorough: 24 more sampled sets - x nexrad-model and nexrad-decode feature sets; the facade x nexrad-model feature sets); thorough = every cell of every crate, quick = every cell of crates with <= 4 features and, for nexrad-data, {none, all, default, each single, each all-but-one} plus 40 seeded random cells; each cell = cargo check --offline -p <crate> --no-default-features --features <set>, once for the library alone and once with --all-targets; non-trivial = a cell that differs from both the empty and the default set",
             "samples": [{"crate": c, "features": f, "result": s} for c, f, s, e in results[:3]] + [{"crate": c, "features": f, "result": s} for c, f, s, e in results[-2:]],
             "exhaustive": exhaustive,
             "feature_space": space,
